@@ -61,7 +61,7 @@ fn main() {
     let verif_dir = PathBuf::from(std::env::var("ASEMON_VERIF_DIR").unwrap_or_else(|_| "/verif".into()));
     let repo_dir = PathBuf::from(std::env::var("ASEMON_REPO").unwrap_or_else(|_| "/repo".into()));
     install_panic_hook();
-    let ctx = Ctx { prop: prop.clone(), tier, seed, verif_dir, repo_dir, start: Instant::now(), threads, replay, level: "exploration" };
+    let ctx = Ctx { prop: prop.clone(), tier, seed, verif_dir, repo_dir, start: Instant::now(), threads, replay, level: "exploration", write_evidence: true };
     let code = asemon::checks::run(&ctx, &rest);
     std::process::exit(code);
 }
